@@ -202,6 +202,102 @@ theorem earlier_unaffected (r : Reader) (av : ActionsView) (t : Tick) (es : List
       obtain ⟨a, b, c, d, e⟩ := x
       simp
 
+/-- masking survives a whole action loop … -/
+theorem loopActions_keeps_hidden (t : Tick) (es : List Nat) (j : Input) (dev : Device) :
+    ∀ (bs : List ActionBind) (r : Reader) (av : ActionsView) bs' r' av' dl lg,
+      ContextInstance.loopActions r av t es bs = some (bs', r', av', dl, lg) →
+      hiddenBy r.consumed dev j = true → hiddenBy r'.consumed dev j = true := by
+  intro bs
+  induction bs with
+  | nil =>
+    intro r av bs' r' av' dl lg h hj
+    simp only [ContextInstance.loopActions, Option.some.injEq, Prod.mk.injEq] at h
+    obtain ⟨_, rfl, _, _, _⟩ := h
+    exact hj
+  | cons ab rest ih =>
+    intro r av bs' r' av' dl lg h hj
+    simp only [ContextInstance.loopActions] at h
+    split at h
+    · cases h
+    · rename_i o ho
+      split at h
+      · cases h
+      · rename_i rest' r'' av'' dl' lg' hrest
+        simp only [Option.some.injEq, Prod.mk.injEq] at h
+        obtain ⟨_, rfl, _, _, _⟩ := h
+        exact ih _ _ _ _ _ _ _ hrest (later_updates_keep_hidden ab r av t es o ho j dev hj)
+
+/-- … a whole context instance (selecting its gamepad does not touch the consumed set) … -/
+theorem instance_keeps_hidden (ci : ContextInstance) (r : Reader) (t : Tick) (es : List Nat) (o : ContextInstance.Out)
+    (h : ci.update r t es = some o) (j : Input) (dev : Device) (hj : hiddenBy r.consumed dev j = true) :
+    hiddenBy o.reader.consumed dev j = true := by
+  unfold ContextInstance.update at h
+  split at h
+  · cases h
+  · rename_i bs r' av' dl lg hl
+    simp only [Option.some.injEq] at h
+    subst h
+    exact loopActions_keeps_hidden t es j dev _ _ _ _ _ _ _ _ hl hj
+
+theorem updateExclusive_keeps_hidden (t : Tick) (j : Input) (dev : Device) :
+    ∀ (is : List (Nat × ContextInstance)) (r : Reader) is' r' dl lg,
+      Registry.updateExclusive r t is = some (is', r', dl, lg) →
+      hiddenBy r.consumed dev j = true → hiddenBy r'.consumed dev j = true := by
+  intro is
+  induction is with
+  | nil =>
+    intro r is' r' dl lg h hj
+    simp only [Registry.updateExclusive, Option.some.injEq, Prod.mk.injEq] at h
+    obtain ⟨_, rfl, _, _⟩ := h
+    exact hj
+  | cons p ps ih =>
+    intro r is' r' dl lg h hj
+    obtain ⟨e, ctx⟩ := p
+    simp only [Registry.updateExclusive] at h
+    split at h
+    · cases h
+    · rename_i o ho
+      split at h
+      · cases h
+      · rename_i rest' r'' dl' lg' hrest
+        simp only [Option.some.injEq, Prod.mk.injEq] at h
+        obtain ⟨_, rfl, _, _⟩ := h
+        exact ih _ _ _ _ _ hrest (instance_keeps_hidden ctx r t [e] o ho j dev hj)
+
+/-- (6) … and the rest of the frame: once an input is hidden it reads as inactive for every action evaluated later in
+    that frame — later actions of the same context, later instances of the same type, and every lower-priority context -/
+theorem registry_keeps_hidden (t : Tick) (j : Input) (dev : Device) :
+    ∀ (reg : Registry) (r : Reader) (o : Registry.Out), Registry.update r t reg = some o →
+      hiddenBy r.consumed dev j = true → hiddenBy o.reader.consumed dev j = true := by
+  intro reg
+  induction reg with
+  | nil => intro r o h hj; simp only [Registry.update, Option.some.injEq] at h; subst h; exact hj
+  | cons g rest ih =>
+    intro r o h hj
+    cases g with
+    | exclusive ty is =>
+      simp only [Registry.update] at h
+      split at h
+      · cases h
+      · rename_i is' r' dl lg hex
+        split at h
+        · cases h
+        · rename_i o' ho'
+          simp only [Option.some.injEq] at h
+          subst h
+          exact ih r' o' ho' (updateExclusive_keeps_hidden t j dev _ _ _ _ _ _ hex hj)
+    | shared ty es ctx =>
+      simp only [Registry.update] at h
+      split at h
+      · cases h
+      · rename_i oc hoc
+        split at h
+        · cases h
+        · rename_i o' ho'
+          simp only [Option.some.injEq] at h
+          subst h
+          exact ih oc.reader o' ho' (instance_keeps_hidden ctx r t es oc hoc j dev hj)
+
 /-- non-vacuity: Ctrl+A consumed hides Ctrl+Shift+B (shares Ctrl) and A, but not plain B -/
 example :
     let ctrl : ModKeys := { control := true }
